@@ -223,7 +223,7 @@ func c16aNewWorld(out *[]vu.Ev, cfg c16aOp) *c16aWorld {
 	}
 	sort.Strings(w.podNames)
 
-	scheme := c16aScheme // pods and migration jobs only: the fake client derives a REST mapper from the whole scheme for every instance
+	scheme := c16aScheme                  // pods and migration jobs only: the fake client derives a REST mapper from the whole scheme for every instance
 	idx := newFieldIndexFakeClient(nil).m // the package fixture's index extractors (same as fieldindex.RegisterFieldIndexes)
 	w.client = fake.NewClientBuilder().WithScheme(scheme).
 		WithStatusSubresource(&v1alpha1.PodMigrationJob{}).
